@@ -79,7 +79,7 @@ if TYPE_CHECKING:
     from .file import _GitFile
 
 from .errors import PackedRefsException, RefFormatError
-from .file import GitFile, ensure_dir_exists
+from .file import FileLocked, GitFile, ensure_dir_exists
 from .objects import ZERO_SHA, ObjectID, git_line, valid_hexsha
 
 Ref = NewType("Ref", bytes)
@@ -1453,22 +1453,63 @@ class DiskRefsContainer(RefsContainer):
         Args:
             all: If True, pack all refs. If False, only pack tags.
         """
-        refs_to_pack: dict[Ref, ObjectID | None] = {}
-        for ref in self.allkeys():
-            if ref == HEADREF:
-                # Never pack HEAD
-                continue
-            if all or ref.startswith(LOCAL_TAG_PREFIX):
-                try:
-                    sha = self[ref]
-                    if sha:
-                        refs_to_pack[ref] = sha
-                except KeyError:
-                    # Broken ref, skip it
-                    pass
+        path = os.path.join(self.path, b"packed-refs")
+        to_prune: dict[Ref, ObjectID] = {}
+        try:
+            f = GitFile(path, "wb")
+            try:
+                # Read the loose refs while holding the packed-refs lock:
+                # updates and deletions that race with us either happen
+                # before we look, or have to wait for this lock (deletions)
+                # or are noticed when the loose ref is pruned below.
+                packed_refs = self.get_packed_refs().copy()
+                for ref in self._iter_loose_refs():
+                    if not (all or ref.startswith(LOCAL_TAG_PREFIX)):
+                        continue
+                    value = self.read_loose_ref(ref)
+                    if (
+                        value is None
+                        or value.startswith(SYMREF)
+                        or not valid_hexsha(value)
+                    ):
+                        # Gone, symbolic (those have to stay loose) or broken
+                        continue
+                    packed_refs[ref] = ObjectID(value)
+                    to_prune[ref] = ObjectID(value)
+                if to_prune:
+                    write_packed_refs(f, packed_refs, self._peeled_refs)
+                    f.close()
+            finally:
+                f.abort()
+        finally:
+            self._invalidate_packed_refs_cache()
 
-        if refs_to_pack:
-            self.add_packed_refs(refs_to_pack)
+        # Now that packed-refs is in place, drop the loose refs it supersedes
+        for ref, value in to_prune.items():
+            self._prune_loose_ref(ref, value)
+
+    def _prune_loose_ref(self, name: Ref, packed: ObjectID) -> None:
+        """Remove a loose ref that has just been packed.
+
+        The ref is locked and re-read first, so that a value written by
+        somebody else since it was packed is left alone.
+
+        Args:
+          name: Name of the ref
+          packed: The value that was written to packed-refs
+        """
+        filename = self.refpath(name)
+        try:
+            f = GitFile(filename, "wb")
+        except (OSError, FileLocked):
+            # already gone, or being updated right now
+            return
+        try:
+            if self.read_loose_ref(name) == packed:
+                with suppress(OSError):
+                    os.remove(filename)
+        finally:
+            f.abort()
 
 
 def _split_ref_line(line: bytes) -> tuple[ObjectID, Ref]:
